@@ -20,6 +20,7 @@ import (
 	"os"
 	"os/exec"
 	"path/filepath"
+	"reflect"
 	"regexp"
 	"sort"
 	"strings"
@@ -338,6 +339,13 @@ func init() {
 					c.R.ExcludedKnown++ // K-C09-1: truncated JSON `{"k":` is accepted, its output `{"k"` is not
 					return
 				}
+				if d.mt == "text/html" {
+					if id := c09EmbedKnown(d.data); id != "" {
+						c.R.ExcludedKnown++ // an embedded payload minifies to the end tag / comment opener of its host element
+						st.Tag("known=" + id)
+						return
+					}
+				}
 				report("output of a successful pass is rejected by the same minifier", err2.Error())
 				return
 			}
@@ -358,7 +366,7 @@ func init() {
 				}
 			case "text/html":
 				// only for unmutated documents: a document truncated inside a tag has no well-defined tree to compare with
-				if a, b := c09HTMLCensus(d.data), c09HTMLCensus(o); !mutated && a != b {
+				if a, b := c09HTMLCensus(d.data), c09HTMLCensus(o); !mutated && a != b && c09EmbedKnown(d.data) == "" {
 					report("x/net/html sees a different set of raw-text elements in the output", a+" vs "+b)
 				}
 			case "application/javascript":
@@ -418,6 +426,12 @@ func init() {
 			still := e1 == nil && e2 != nil
 			if k.ReplayStr("mediatype") == "text/css" {
 				still = e1 == nil && c09CSSValid([]byte(k.ReplayStr("input"))) && !c09CSSValid(o1.Bytes())
+			}
+			if k.ReplayStr("mediatype") == "text/html" {
+				// the reader finds a different sequence of embedded elements / payloads in the output
+				a, _ := c09ReadEmbedded([]byte(k.ReplayStr("input")))
+				b, _ := c09ReadEmbedded(o1.Bytes())
+				still = e1 == nil && (!reflect.DeepEqual(a.kinds, b.kinds) || c09HTMLCensus([]byte(k.ReplayStr("input"))) != c09HTMLCensus(o1.Bytes()) || len(c09VisibleText([]byte(k.ReplayStr("input")))) != len(c09VisibleText(o1.Bytes())))
 			}
 			c.R.AddKnown(k.ID, still, k.What, fmt.Sprintf("first pass: %q err=%v; second pass: %q err=%v", o1.String(), e1, o2.String(), e2))
 		}
